@@ -109,6 +109,18 @@ def r1(cx):
     dc = [c for c in b.calls() if c.q.endswith("tree::build::dyn_build_act")]
     ok = len(dc) == 1 and pa.root(b, dc[0].args[-1]) == ("param", 3, b.names.get(3), ())
     src = pa.iter_source(b, ("call",) + pa.root(b, dc[0].args[0])[1:3] + ((),)) if dc and pa.root(b, dc[0].args[0])[0] == "call" else None
+    # no way round the loop: build_acts returns Ok only after it went through the loop over the given acts (an early
+    # `return Ok(())` under some condition - "already expanded", "nothing to do" - generates nothing for that call)
+    if dc:
+        around = [(h, body) for h, body in natural_loops(b) if dc[0].b in body]
+        if around:
+            h, body = max(around, key=lambda x: len(x[1]))
+            bypass = b.reach_from([0], avoid=[h])
+            oks = [bi for bi, kind in b.exit_defs() if kind == "OK"]
+            early = [bi for bi in oks if bi in bypass]
+            cx.ob("C16.R1", "build_acts:no-bypass", bool(oks) and not early,
+                  "build_acts returns Ok only after the loop over the acts it was given%s" % (
+                      "" if not early else " - but %s returns Ok without entering the loop: for that call no act is generated at all (the generating act then completes with nothing below it)" % [b.loc(x) for x in early]), dc[0].loc)
     d = m.one(r"^acts::scheduler::tree::build::dyn_build_act$")
     cursor_shape = "prev" in d.names.values()
     if cursor_shape:
@@ -127,7 +139,7 @@ def r1(cx):
             cx.ob("C16.R1", "build_acts:chain-complete", full,
                   "build_acts links the nodes of a sequence by walking every adjacent pair (`windows(2)`)%s" % (
                       "" if full else " - but it walks `%s`: not every neighbour is linked, the chain of a list with three or more acts breaks and the rest never runs" % pc.q.split("::")[-1]), pc.loc)
-    cx.floor("C16.R1", 9)
+    cx.floor("C16.R1", 10)
 
 
 def r2(cx):
